@@ -8,9 +8,11 @@ import (
 	"math/rand"
 	"os"
 	"os/exec"
+	"reflect"
 	"runtime/debug"
 	"sort"
 	"strings"
+	"unsafe"
 
 	"gorm.io/gorm"
 	"gorm.io/gorm/callbacks"
@@ -46,12 +48,17 @@ func (dummyDialector) Explain(sql string, vars ...interface{}) string { return s
 type regOp struct {
 	Op     string `json:"op"` // register replace remove
 	Name   string `json:"name"`
-	Before string `json:"before"`
+	Before string `json:"before"` // the request as the chain spells it: argument of the LAST Before / After
 	After  string `json:"after"`
 	Hid    int    `json:"hid"`
+	// HOW the request is built (c17_build.go). nil = the legacy spelling p.Match(nil)[.Before(b)][.After(a)]
+	Chain *c17Chain `json:"chain,omitempty"`
 }
 
 func (o regOp) J(matchOk bool) []interface{} {
+	if o.Chain != nil {
+		return o.Chain.J(o)
+	}
 	switch o.Op {
 	case "register":
 		return []interface{}{"register", o.Name, o.Before, o.After, matchOk, o.Hid}
@@ -65,6 +72,9 @@ type c17Case struct {
 	Pipeline string  `json:"pipeline"`
 	SkipTx   bool    `json:"skipDefaultTransaction"`
 	Ops      []regOp `json:"ops"`
+	// a second history on ANOTHER pipeline of the same *gorm.DB, interleaved with Ops (op k of Other runs right
+	// before op k of Ops, the rest after): every pipeline must behave as if it were alone
+	Other *c17Case `json:"other,omitempty"`
 }
 
 type c17Obs struct {
@@ -72,6 +82,12 @@ type c17Obs struct {
 	Fns   []int    `json:"fns"`   // after the last op
 	Steps [][]int  `json:"steps"` // fns after each op
 	Crash bool     `json:"crash,omitempty"`
+	// processor.callbacks after the last op, read by reflection: [name, before, after, remove, replace] per record
+	Table [][]interface{} `json:"table"`
+	Alias []int           `json:"alias,omitempty"` // per record: index of the first record that is the SAME pointer
+	Get   []int           `json:"get,omitempty"`   // processor.Get(n) for n in c17GetNames: handler id, -1 = nil
+	Other *c17Obs         `json:"other,omitempty"`
+	Cross string          `json:"cross,omitempty"` // a call on the OTHER pipeline changed this pipeline's firing order
 }
 
 type builtin struct {
@@ -128,62 +144,239 @@ func c17Real(c c17Case) c17Obs {
 	}
 	var fired []int
 	stub := func(id int) func(*gorm.DB) { return func(*gorm.DB) { fired = append(fired, id) } }
-	bs := c17Builtins[c.Pipeline]
-	p := db.Callback().Create()
-	switch c.Pipeline {
-	case "query":
-		p = db.Callback().Query()
-	case "update":
-		p = db.Callback().Update()
-	case "delete":
-		p = db.Callback().Delete()
-	case "row":
-		p = db.Callback().Row()
-	case "raw":
-		p = db.Callback().Raw()
-	}
-	for i, b := range bs {
-		if b.Match == "enableTransaction" && c.SkipTx {
-			continue
+	procOf := func(name string) interface {
+		Execute(*gorm.DB) *gorm.DB
+		Get(string) func(*gorm.DB)
+	} {
+		switch name {
+		case "query":
+			return db.Callback().Query()
+		case "update":
+			return db.Callback().Update()
+		case "delete":
+			return db.Callback().Delete()
+		case "row":
+			return db.Callback().Row()
+		case "raw":
+			return db.Callback().Raw()
 		}
-		if e := p.Replace(b.Name, stub(1+i)); e != nil {
-			panic(e)
-		}
+		return db.Callback().Create()
 	}
-	obs := c17Obs{Errs: []string{}, Fns: []int{}, Steps: [][]int{}}
-	exec := func() []int {
+	type side struct {
+		c    c17Case
+		obs  *c17Obs
+		next int
+		app  func(o regOp) error
+	}
+	mk := func(c c17Case, obs *c17Obs) *side {
+		bs := c17Builtins[c.Pipeline]
+		p := db.Callback().Create()
+		switch c.Pipeline {
+		case "query":
+			p = db.Callback().Query()
+		case "update":
+			p = db.Callback().Update()
+		case "delete":
+			p = db.Callback().Delete()
+		case "row":
+			p = db.Callback().Row()
+		case "raw":
+			p = db.Callback().Raw()
+		}
+		for i, b := range bs {
+			if b.Match == "enableTransaction" && c.SkipTx {
+				continue
+			}
+			if e := p.Replace(b.Name, stub(1+i)); e != nil {
+				panic(e)
+			}
+		}
+		*obs = c17Obs{Errs: []string{}, Fns: []int{}, Steps: [][]int{}}
+		prev := p.Match(nil) // the builder VALUE of the previous chain (reuse)
+		return &side{c: c, obs: obs, app: func(o regOp) error {
+			if o.Chain == nil {
+				cb := p.Match(nil) // same as starting from the processor: &callback{processor: p}
+				if o.Before != "" {
+					cb = cb.Before(o.Before)
+				}
+				if o.After != "" {
+					cb = cb.After(o.After)
+				}
+				prev = cb
+				switch o.Op {
+				case "register":
+					return cb.Register(o.Name, stub(o.Hid))
+				case "replace":
+					return cb.Replace(o.Name, stub(o.Hid))
+				}
+				return p.Remove(o.Name)
+			}
+			ch := o.Chain
+			cb := prev
+			switch {
+			case ch.Reuse:
+				// the builder value of the previous op, used again
+			case len(ch.Start) == 0 || ch.Start[0] == "plain":
+				if len(ch.Steps) == 0 {
+					switch o.Op {
+					case "register":
+						return p.Register(o.Name, stub(o.Hid))
+					case "replace":
+						return p.Replace(o.Name, stub(o.Hid))
+					}
+					return p.Remove(o.Name)
+				}
+				cb = p.Match(nil)
+			case ch.Start[0] == "before":
+				cb = p.Before(ch.Start[1])
+			case ch.Start[0] == "after":
+				cb = p.After(ch.Start[1])
+			default:
+				switch ch.Start[1] {
+				case "true":
+					cb = p.Match(func(*gorm.DB) bool { return true })
+				case "false":
+					cb = p.Match(func(*gorm.DB) bool { return false })
+				default:
+					cb = p.Match(nil)
+				}
+			}
+			for _, st := range ch.Steps {
+				keep := cb
+				if st[0] == "before" {
+					cb = cb.Before(st[1])
+				} else {
+					cb = cb.After(st[1])
+				}
+				if ch.DropResults {
+					cb = keep // the value returned by the chain method is thrown away: `b.After(y); b.Register(…)`
+				}
+			}
+			prev = cb
+			switch o.Op {
+			case "register":
+				return cb.Register(o.Name, stub(o.Hid))
+			case "replace":
+				return cb.Replace(o.Name, stub(o.Hid))
+			}
+			return cb.Remove(o.Name)
+		}}
+	}
+	exec := func(pipeline string) []int {
 		fired = []int{}
-		p.Execute(db.Session(&gorm.Session{NewDB: true}))
+		procOf(pipeline).Execute(db.Session(&gorm.Session{NewDB: true}))
 		return append([]int{}, fired...)
 	}
-	for _, o := range c.Ops {
-		var e error
-		switch o.Op {
-		case "remove":
-			e = p.Remove(o.Name)
-		default:
-			cb := p.Match(nil) // same as starting from the processor: &callback{processor: p}
-			if o.Before != "" {
-				cb = cb.Before(o.Before)
-			}
-			if o.After != "" {
-				cb = cb.After(o.After)
-			}
-			if o.Op == "register" {
-				e = cb.Register(o.Name, stub(o.Hid))
-			} else {
-				e = cb.Replace(o.Name, stub(o.Hid))
-			}
-		}
-		if e != nil {
-			obs.Errs = append(obs.Errs, "conflict")
+	step := func(s *side) {
+		o := s.c.Ops[s.next]
+		s.next++
+		if e := s.app(o); e != nil {
+			s.obs.Errs = append(s.obs.Errs, "conflict")
 		} else {
-			obs.Errs = append(obs.Errs, "ok")
+			s.obs.Errs = append(s.obs.Errs, "ok")
 		}
-		obs.Steps = append(obs.Steps, exec())
+		s.obs.Steps = append(s.obs.Steps, exec(s.c.Pipeline))
 	}
-	obs.Fns = exec()
+	finish := func(s *side) {
+		s.obs.Fns = exec(s.c.Pipeline)
+		s.obs.Table, s.obs.Alias = c17ReadTable(procOf(s.c.Pipeline))
+		for _, n := range c17GetNames(s.c.Pipeline) {
+			id := -1
+			if fn := procOf(s.c.Pipeline).Get(n); fn != nil {
+				func() {
+					defer func() {
+						if recover() != nil {
+							id = -2
+						}
+					}()
+					fired = []int{}
+					fn(nil)
+					if len(fired) == 1 {
+						id = fired[0]
+					} else {
+						id = -2
+					}
+				}()
+			}
+			s.obs.Get = append(s.obs.Get, id)
+		}
+	}
+	var obs c17Obs
+	main := mk(c, &obs)
+	var other *side
+	var oobs c17Obs
+	if c.Other != nil && c.Other.Pipeline != c.Pipeline {
+		oc := *c.Other
+		oc.SkipTx = c.SkipTx
+		other = mk(oc, &oobs)
+	}
+	for main.next < len(c.Ops) {
+		if other != nil && other.next < len(other.c.Ops) {
+			before := exec(c.Pipeline)
+			step(other)
+			if after := exec(c.Pipeline); fmt.Sprint(before) != fmt.Sprint(after) {
+				obs.Cross = fmt.Sprintf("op %d on pipeline %q changed the firing order of pipeline %q: %v -> %v", other.next-1, other.c.Pipeline, c.Pipeline, before, after)
+			}
+		}
+		step(main)
+	}
+	for other != nil && other.next < len(other.c.Ops) {
+		step(other)
+	}
+	finish(main)
+	if other != nil {
+		finish(other)
+		obs.Other = &oobs
+	}
 	return obs
+}
+
+// c17GetNames: the names asked of processor.Get after a history
+func c17GetNames(pipeline string) []string {
+	var out []string
+	for _, b := range c17Builtins[pipeline] {
+		out = append(out, b.Name)
+	}
+	return append(out, "u1", "u2", "u3", "u4", "u5", "nope", "*", "")
+}
+
+// c17ReadTable reads processor.callbacks (unexported) by reflection: per record [name, before, after, remove,
+// replace] and the index of the first slot holding the same pointer. nil when the structs no longer look like that.
+func c17ReadTable(p interface{}) (tab [][]interface{}, alias []int) {
+	defer func() {
+		if recover() != nil {
+			tab, alias = nil, nil
+		}
+	}()
+	open := func(f reflect.Value) reflect.Value {
+		return reflect.NewAt(f.Type(), unsafe.Pointer(f.UnsafeAddr())).Elem()
+	}
+	v := reflect.ValueOf(p).Elem().FieldByName("callbacks")
+	if !v.IsValid() {
+		return nil, nil
+	}
+	v = open(v)
+	tab = [][]interface{}{}
+	seen := map[uintptr]int{}
+	for i := 0; i < v.Len(); i++ {
+		ptr := v.Index(i)
+		e := ptr.Elem()
+		rec := []interface{}{}
+		for _, n := range []string{"name", "before", "after"} {
+			rec = append(rec, open(e.FieldByName(n)).String())
+		}
+		for _, n := range []string{"remove", "replace"} {
+			rec = append(rec, open(e.FieldByName(n)).Bool())
+		}
+		tab = append(tab, rec)
+		if j, ok := seen[ptr.Pointer()]; ok {
+			alias = append(alias, j)
+		} else {
+			seen[ptr.Pointer()] = i
+			alias = append(alias, i)
+		}
+	}
+	return tab, alias
 }
 
 func init() {
@@ -222,7 +415,7 @@ func init() {
 		defer ch.close()
 		obs := ch.run(c)
 		r.Case("callbacks", canon(c), true)
-		if v := c17Oracle(c, obs); v != "" {
+		if v, _, _ := c17OracleAll(c, obs); v != "" {
 			r.Violate(Violation{Kind: "e2e", Suite: "callbacks", Input: c, Observed: obs, Expected: v})
 		}
 	}
@@ -281,17 +474,35 @@ func c17Oracle(c c17Case, obs c17Obs) string {
 	if obs.Crash {
 		return "registration neither returned an error nor completed (process crashed: unbounded recursion in sortCallback)"
 	}
+	if obs.Cross != "" {
+		return obs.Cross // pipelines are independent: a call on one never changes another
+	}
 	for _, e := range obs.Errs {
 		if e != "ok" {
 			return "" // an error was returned: the property demands nothing further
 		}
 	}
+	// Match: a Register / Replace whose Match predicate is false is no registration at all (compile drops the
+	// record at once); what a Remove issued through Match(false) should do the property does not say: not judged
+	allOps := c.Ops
+	var eff []regOp
+	for _, o := range c.Ops {
+		if o.MatchFalse() {
+			if o.Op == "remove" {
+				return ""
+			}
+			continue
+		}
+		eff = append(eff, o)
+	}
+	c.Ops = eff
 	bs := c17Builtins[c.Pipeline]
 	type entry struct {
 		name, before, after string
 		hid                 int
 		builtin             bool
 		repl                bool
+		ambig               bool // the spelling does not fix the request (c17Ambig): its side is not judged
 	}
 	live := map[string][]entry{} // per name: entries since the last remove
 	order := []string{}
@@ -317,7 +528,7 @@ func c17Oracle(c c17Case, obs c17Obs) string {
 			if builtinName[o.Name] && (o.Op == "register" || o.Before != "" || o.After != "") {
 				reusedBuiltin = true
 			}
-			live[o.Name] = append(live[o.Name], entry{o.Name, o.Before, o.After, o.Hid, false, o.Op == "replace"})
+			live[o.Name] = append(live[o.Name], entry{o.Name, o.Before, o.After, o.Hid, false, o.Op == "replace", o.c17Ambig()})
 		}
 	}
 	pos := map[int]int{}
@@ -373,7 +584,7 @@ func c17Oracle(c c17Case, obs c17Obs) string {
 		}
 	}
 	for n, es := range live {
-		if len(es) != 1 {
+		if len(es) != 1 || es[0].ambig {
 			continue
 		}
 		e := es[0]
@@ -423,7 +634,10 @@ func c17Oracle(c c17Case, obs c17Obs) string {
 			liveNow[b.Name] = 1 + i
 		}
 	}
-	for k, o := range c.Ops {
+	for k, o := range allOps {
+		if o.MatchFalse() {
+			continue
+		}
 		switch o.Op {
 		case "remove":
 			delete(liveNow, o.Name)
@@ -556,7 +770,21 @@ func c17Suite(r *Result, rng *rand.Rand, tier string) {
 			}
 			ops[j].Hid = 100 + j
 		}
-		cases = append(cases, c17Case{Pipeline: p, SkipTx: rng.Intn(4) == 0, Ops: ops})
+		cs := c17Case{Pipeline: p, SkipTx: rng.Intn(4) == 0, Ops: ops}
+		if rng.Intn(4) != 0 { // HOW each request is built: a random spelling of the same request (c17_build.go)
+			cs = c17Respell(rng, cs, []string{"u1", "u2", "u3", "u4", "nope", "*", c17Builtins[p][0].Name})
+		}
+		cases = append(cases, cs)
+	}
+	// every spelling of a request (starter x up to two chain calls x finisher) on a discriminating fixture
+	switch tier {
+	case "thorough":
+		for _, p := range kinds {
+			cases = append(cases, c17SpellCases(p, []string{"register", "replace", "remove"})...)
+		}
+	default:
+		cases = append(cases, c17SpellCases("create", []string{"register", "replace", "remove"})...)
+		cases = append(cases, c17SpellCases(kinds[1+rng.Intn(5)], []string{"register"})...)
 	}
 	// structured dependency webs among up to five fresh names (c17_gen.go)
 	nchain := 6000
@@ -566,7 +794,38 @@ func c17Suite(r *Result, rng *rand.Rand, tier string) {
 	case "search":
 		nchain = 60000
 	}
-	cases = append(cases, c17ChainCases(rng, nchain)...)
+	for _, cs := range c17ChainCases(rng, nchain) {
+		if rng.Intn(4) != 0 {
+			cs = c17Respell(rng, cs, c17Pool)
+		}
+		if rng.Intn(8) == 0 { // a second history on another pipeline of the same DB, interleaved
+			var q string
+			for q = cs.Pipeline; q == cs.Pipeline; q = kinds[rng.Intn(len(kinds))] {
+			}
+			oc := c17ChainCases(rng, 1)[0]
+			oc.Pipeline = q
+			mx := 20 - 2*len(c17Builtins[q])
+			if mx > 4 {
+				mx = 4
+			}
+			if mx < 1 {
+				mx = 1
+			}
+			if len(oc.Ops) > mx {
+				oc.Ops = oc.Ops[:mx]
+			}
+			for j := range oc.Ops { // built-in names of the generated pipeline do not exist on q: they become unknown names there
+				oc.Ops[j].Hid = 200 + j
+			}
+			oc = c17Respell(rng, oc, c17Pool)
+			oc.SkipTx = cs.SkipTx
+			cs.Other = &oc
+		}
+		if rng.Intn(50) == 0 { // a builder value used for two finishers (listed finding F21: rare on purpose)
+			cs = c17Reuse(rng, cs)
+		}
+		cases = append(cases, cs)
+	}
 	// probes: the witness of every listed finding is re-run on the real code in every run
 	probeAt := map[int]string{}
 	for _, w := range c17Witnesses() {
@@ -574,13 +833,25 @@ func c17Suite(r *Result, rng *rand.Rand, tier string) {
 		cases = append(cases, w.Case)
 	}
 	// model first (cheap; tells which histories would not terminate)
-	leanOps := make([][]interface{}, len(cases))
-	for i, c := range cases {
+	leanOps := make([][]interface{}, 0, len(cases))
+	otherAt := map[int]int{} // case index -> index of the answer for its Other history
+	leanOp := func(c c17Case) []interface{} {
 		ops := make([]interface{}, len(c.Ops))
 		for j, o := range c.Ops {
 			ops[j] = o.J(true)
 		}
-		leanOps[i] = []interface{}{"cb.run", initOps(c), ops}
+		return []interface{}{"cb.run", initOps(c), ops, c17GetNames(c.Pipeline)}
+	}
+	for _, c := range cases {
+		leanOps = append(leanOps, leanOp(c))
+	}
+	for i, c := range cases {
+		if c.Other != nil {
+			oc := *c.Other
+			oc.SkipTx = c.SkipTx
+			otherAt[i] = len(leanOps)
+			leanOps = append(leanOps, leanOp(oc))
+		}
 	}
 	outs, err := AskLean(leanOps)
 	if err != nil {
@@ -608,6 +879,10 @@ func c17Suite(r *Result, rng *rand.Rand, tier string) {
 	fuelSeen := 0
 	skip := make([]bool, len(cases))
 	for i := range cases {
+		if j, ok := otherAt[i]; ok && strings.Contains(string(outs[j]), "\"fuel\"") {
+			cases[i].Other = nil // keep crash-prone histories out of the interleaved runs
+			delete(otherAt, i)
+		}
 		if strings.Contains(string(outs[i]), "\"fuel\"") {
 			fuelSeen++
 			if _, probe := probeAt[i]; fuelSeen > 40 && !probe {
@@ -648,22 +923,17 @@ func c17Suite(r *Result, rng *rand.Rand, tier string) {
 			judgeOrder = append(judgeOrder, i)
 		}
 	}
-	for _, i := range judgeOrder {
-		c := cases[i]
-		obs := res[i]
-		if skip[i] {
-			r.H("outcome", "model-predicts-nontermination(not run)")
-			continue
-		}
-		if obs.Errs == nil && !obs.Crash {
-			continue // not run (budget expired)
-		}
+	judge := func(i int, c c17Case, obs c17Obs, out json.RawMessage, sub bool) {
+		full, fullObs := cases[i], res[i] // what a replay needs (for the Other history: the whole interleaved case)
 		var m struct {
-			Errs []string `json:"errs"`
-			Fns  []int    `json:"fns"`
-			Gap  []int    `json:"gap"`
+			Errs    []string        `json:"errs"`
+			Fns     []int           `json:"fns"`
+			Gap     []int           `json:"gap"`
+			Table   [][]interface{} `json:"table"`
+			Get     []int           `json:"get"`
+			Spelled bool            `json:"spelled"`
 		}
-		_ = json.Unmarshal(outs[i], &m)
+		_ = json.Unmarshal(out, &m)
 		for k, e := range m.Errs {
 			if e == "cycle" { // the depth guard's error (repair of F12): an ordinary returned error for the caller
 				m.Errs[k] = "conflict"
@@ -682,14 +952,52 @@ func c17Suite(r *Result, rng *rand.Rand, tier string) {
 			}
 		}
 		key := canon(c)
+		if sub {
+			key += "/other-of/" + canon(full.Ops)
+		}
 		nontriv := false
 		for _, o := range c.Ops {
-			if o.Before != "" || o.After != "" || o.Op != "register" {
+			if o.Before != "" || o.After != "" || o.Op != "register" || o.Chain != nil {
 				nontriv = true
+			}
+			// how the request was built (the dimension of round 3)
+			switch ch := o.Chain; {
+			case ch == nil:
+				r.H("spelling", "legacy Match(nil).Before.After")
+			default:
+				st := "plain"
+				if len(ch.Start) == 2 {
+					st = ch.Start[0]
+					if st == "match" {
+						st += "(" + ch.Start[1] + ")"
+					}
+				}
+				seq := ""
+				for _, x := range ch.Steps {
+					seq += string(x[0][0])
+				}
+				if len(seq) > 3 {
+					seq = seq[:3] + "+"
+				}
+				r.H("spelling", fmt.Sprintf("start=%s steps=%s fin=%s", st, seq, o.Op))
+				if o.c17Ambig() {
+					r.H("spelling-kind", "request not fixed by the property (repeated call with another argument / dropped results / reuse)")
+				} else if len(ch.Steps) > 0 {
+					r.H("spelling-kind", "chain of "+fmt.Sprint(len(ch.Steps)+len(ch.Start)-1)+" calls")
+				}
+				if ch.Reuse {
+					r.H("spelling-kind", "builder value reused")
+				}
+				if ch.DropResults {
+					r.H("spelling-kind", "results of chain methods dropped")
+				}
 			}
 		}
 		r.Case("callbacks", key, nontriv)
 		r.H("pipeline", c.Pipeline)
+		if sub {
+			r.H("cross-pipeline", "second history on "+c.Pipeline+" interleaved")
+		}
 		r.H("len", fmt.Sprint(len(c.Ops)))
 		outcome := "ok"
 		for _, e := range obs.Errs {
@@ -704,25 +1012,45 @@ func c17Suite(r *Result, rng *rand.Rand, tier string) {
 		if i%4999 == 0 {
 			r.Sample(map[string]interface{}{"input": c, "real": obs})
 		}
-		// correspondence: error class per op + final firing order; model "fuel" <-> real crash
-		r.CorrCompared++
-		modelFuel := false
-		for _, e := range m.Errs {
-			if e == "fuel" {
-				modelFuel = true
+		// correspondence: error class per op + final firing order; model "fuel" <-> real crash.
+		// Histories that reuse a builder value are outside the value model (C17_builder_used_once_appends): e2e only.
+		if !c17HasReuse(c) {
+			r.CorrCompared++
+			modelFuel := false
+			for _, e := range m.Errs {
+				if e == "fuel" {
+					modelFuel = true
+				}
 			}
-		}
-		if modelFuel != obs.Crash {
-			r.Violate(Violation{Kind: "correspondence", Suite: "callbacks", Input: c, Observed: obs, Expected: m,
-				Note: "model runs out of fuel iff the real sortCallback recursion does not terminate"})
-		} else if !obs.Crash {
-			if strings.Join(m.Errs, ",") != strings.Join(obs.Errs, ",") || fmt.Sprint(m.Fns) != fmt.Sprint(obs.Fns) {
-				r.Violate(Violation{Kind: "correspondence", Suite: "callbacks", Input: c, Observed: obs, Expected: m,
-					Note: "real Callback() API (error per call, firing order of stubs) vs Lean Gorm.Proc.run"})
+			if !m.Spelled {
+				r.H("model-branch", "chain record differs from the spelled request (non-canonical builder tables)")
 			}
+			if modelFuel != obs.Crash {
+				r.Violate(Violation{Kind: "correspondence", Suite: "callbacks", Input: full, Observed: fullObs, Expected: m,
+					Note: "model runs out of fuel iff the real sortCallback recursion does not terminate"})
+			} else if !obs.Crash {
+				if strings.Join(m.Errs, ",") != strings.Join(obs.Errs, ",") || fmt.Sprint(m.Fns) != fmt.Sprint(obs.Fns) {
+					r.Violate(Violation{Kind: "correspondence", Suite: "callbacks", Input: full, Observed: fullObs, Expected: m,
+						Note: "real Callback() API (error per call, firing order of stubs) vs Lean Gorm.Proc.run"})
+				} else if obs.Table != nil && canon(obs.Table) != canon(c17TableNoHid(m.Table)) {
+					// the registration table itself: name / before / after / remove / replace of every record
+					r.Violate(Violation{Kind: "correspondence", Suite: "callbacks", Input: full, Observed: fullObs, Expected: m,
+						Note: "processor.callbacks read by reflection vs the model's table (records built through the regenerated builder tables)"})
+				} else if obs.Get != nil && fmt.Sprint(obs.Get) != fmt.Sprint(m.Get) {
+					r.Violate(Violation{Kind: "correspondence", Suite: "callbacks", Input: full, Observed: fullObs, Expected: m,
+						Note: "processor.Get(name) for every name of the universe vs Lean Gorm.Proc.get"})
+				}
+				if obs.Table == nil {
+					r.H("table-by-reflection", "unreadable (struct layout changed)")
+				} else {
+					r.H("table-by-reflection", "compared")
+				}
+			}
+		} else {
+			r.H("outcome", "builder reuse: e2e only")
 		}
 		// end-to-end oracle
-		if want, probe := probeAt[i]; probe {
+		if want, probe := probeAt[i]; probe && !sub {
 			v := c17Oracle(c, obs)
 			got := ""
 			if v != "" {
@@ -744,8 +1072,28 @@ func c17Suite(r *Result, rng *rand.Rand, tier string) {
 			if id != "" && listed(id) {
 				r.KnownFinding(id, v)
 			} else {
-				r.Violate(Violation{Kind: "e2e", Suite: "callbacks", Input: c, Observed: obs, Expected: v, Note: id})
+				if sub {
+					v = "history on the second pipeline: " + v
+				}
+				r.Violate(Violation{Kind: "e2e", Suite: "callbacks", Input: full, Observed: fullObs, Expected: v, Note: id})
 			}
+		}
+	}
+	for _, i := range judgeOrder {
+		c := cases[i]
+		obs := res[i]
+		if skip[i] {
+			r.H("outcome", "model-predicts-nontermination(not run)")
+			continue
+		}
+		if obs.Errs == nil && !obs.Crash {
+			continue // not run (budget expired)
+		}
+		judge(i, c, obs, outs[i], false)
+		if j, ok := otherAt[i]; ok && c.Other != nil && obs.Other != nil && !obs.Crash {
+			oc := *c.Other
+			oc.SkipTx = c.SkipTx
+			judge(i, oc, *obs.Other, outs[j], true)
 		}
 	}
 	_ = sort.Strings
@@ -756,6 +1104,14 @@ func c17Classify(c c17Case, obs c17Obs, v string) string {
 	if obs.Crash {
 		return "F12-C17-unbounded-recursion"
 	}
+	// F21: one builder VALUE used for two finishers -- the second call rewrites the record the first one stored
+	// (p.callbacks holds the pointer): name / handler / remove / replace of the first registration are overwritten
+	for i, o := range c.Ops {
+		if o.Chain != nil && o.Chain.Reuse && i > 0 {
+			return "F21-C17-builder-value-reused"
+		}
+	}
+	c.Ops = c17Effective(c.Ops)
 	if strings.Contains(v, "registered") || strings.Contains(v, "built-in callback") {
 		if !c17Satisfiable(c) {
 			return "F13-C17-undetected-conflict"
@@ -810,6 +1166,19 @@ func c17Classify(c c17Case, obs c17Obs, v string) string {
 	}
 	if strings.Contains(v, "registered After(") && f16 {
 		return "F16-C17-before-overwrites-after-request"
+	}
+	// F16, second symptom: the overwritten request is X's After("*"): X stops being a '*' record, so the pre-pass of
+	// the NEXT compile no longer keeps it behind the other '*' callbacks -- an unrelated plain Replace moves it
+	if strings.Contains(v, "did not take the replaced") {
+		for _, o := range c.Ops {
+			if o.Op != "remove" && o.Before != "" && o.Before != "*" && o.Before != o.Name {
+				for _, x := range c.Ops {
+					if x.Op != "remove" && x.Name == o.Before && x.After == "*" {
+						return "F16-C17-before-overwrites-after-request"
+					}
+				}
+			}
+		}
 	}
 	// F20: a name N made a request Before(X)/After(X), was removed, and is registered again later: the
 	// back-link the first N left on X (`cs[idx].after = N` / `after.before = N`) survives the Remove and now
@@ -894,6 +1263,7 @@ func c17Classify(c c17Case, obs c17Obs, v string) string {
 // c17Satisfiable: is there ANY order meeting all requested sides plus the built-in order?
 // (requests as the oracle reads them: names with a single live entry; '*' relative to unconstrained names)
 func c17Satisfiable(c c17Case) bool {
+	c.Ops = c17Effective(c.Ops)
 	bs := c17Builtins[c.Pipeline]
 	type entry struct{ before, after string }
 	live := map[string][]entry{}
@@ -974,4 +1344,42 @@ func c17Satisfiable(c c17Case) bool {
 		}
 	}
 	return true
+}
+
+// c17Effective: the ops without the Register / Replace calls whose Match predicate is false (no-ops)
+func c17Effective(ops []regOp) []regOp {
+	var eff []regOp
+	for _, o := range ops {
+		if o.MatchFalse() && o.Op != "remove" {
+			continue
+		}
+		eff = append(eff, o)
+	}
+	return eff
+}
+
+// c17TableNoHid: the model's table rows without the handler id (not readable on the real side)
+func c17TableNoHid(t [][]interface{}) [][]interface{} {
+	out := [][]interface{}{}
+	for _, row := range t {
+		if len(row) >= 5 {
+			out = append(out, row[:5])
+		}
+	}
+	return out
+}
+
+// c17OracleAll: the oracle on the history and, when there is one, on the interleaved history of the second pipeline
+func c17OracleAll(c c17Case, obs c17Obs) (string, c17Case, c17Obs) {
+	if v := c17Oracle(c, obs); v != "" {
+		return v, c, obs
+	}
+	if c.Other != nil && obs.Other != nil {
+		oc := *c.Other
+		oc.SkipTx = c.SkipTx
+		if v := c17Oracle(oc, *obs.Other); v != "" {
+			return "history on the second pipeline: " + v, oc, *obs.Other
+		}
+	}
+	return "", c, obs
 }
